@@ -144,6 +144,7 @@ func checkC01(c *Ctx) {
 		checkFallbackSource(c, "C01.R18.fallback-source", gen, 1)
 		// text that ends its comment or string too early leaves code the formatter rejects: generation fails
 		checkContextKinds(c, "C01.R19.context-kind", ev, checkExampleIsJSON(c, "C01.R19.example-json", gen))
+		checkIdentifierHeads(c, "C01.R20.identifier-heads", ev)
 	}
 	checkVersionedImports(c, "C01.R14.versioned-imports", gen)
 
